@@ -542,7 +542,16 @@ let c17_sb (line : string) : string =
           | Some i -> Some (n_of_string (String.sub m (i + 1) (String.length m - i - 1)))
           | None -> None) (items_of made) in
       if not (c17_once_sb counts) then bad ("argument-list-evaluated-more-than-once:" ^ made)
-    | 'T' | 'D' | 'L' | 'A' | 'K' | 'E' -> ()
+    | 'T' ->
+      (* listed x filtered: the terse listing prints exactly the selected rows, one line each *)
+      let (ls, log, rest) = read_terse body in
+      if rest <> [] then bad ("terse-status:" ^ String.concat "," rest);
+      if log <> [] then bad "terse-listing-invoked-something";
+      let exp_lines = List.sort compare (List.map (fun ((_, path), _) -> ts path ^ ": benchmark") (flat_exec cfg0 benches groups)) in
+      if List.sort compare ls <> exp_lines then
+        bad ("listed-rows-are-not-the-selected-ones unexpected=" ^ String.concat "+" (List.map enc (List.filter (fun x -> not (List.mem x exp_lines)) ls))
+             ^ " missing=" ^ String.concat "+" (List.map enc (List.filter (fun x -> not (List.mem x ls)) exp_lines)))
+    | 'D' | 'L' | 'A' | 'K' | 'E' -> ()
     | _ -> bad "unreadable-output") secs;
   if !fail = [] then "true" else "false " ^ String.concat " " (List.rev !fail)
 
